@@ -1003,6 +1003,9 @@ fn run_sequence(run: &Run, cnt: &Cnt, port: u16, seq: &[Op], fault: Option<(usiz
       }
     }
   };
+  // a second, independent oracle for what the definitions endpoints accept: the (namespace, name) pairs the requests leave
+  // stored (None once a removal / replacement matched a stored model by one of the two only - which model goes is left open)
+  let mut stored: Option<Vec<(u8, u8)>> = Some(vec![]);
   for (k, op) in seq.iter().enumerate() {
     if let Some((at, f)) = fault {
       if at == k {
@@ -1017,6 +1020,52 @@ fn run_sequence(run: &Run, cnt: &Cnt, port: u16, seq: &[Op], fault: Option<(usiz
     reqs.push(req_json(&r));
     cnt.requests.fetch_add(1, Ordering::Relaxed);
     let want_ok = op.apply(&mut w);
+    if fault.is_none() {
+      let relation = |s: &Vec<(u8, u8)>, ns: u8, name: u8| -> (bool, bool) { (s.iter().any(|x| x.0 == ns && x.1 == name), s.iter().any(|x| (x.0 == ns) != (x.1 == name))) };
+      match op {
+        Op::Add(k) => {
+          let m = MODELS[*k].1;
+          if let Some(s) = stored.as_mut() {
+            let clash = s.iter().any(|x| x.0 == m.ns || x.1 == m.name);
+            if want_ok == clash {
+              run.violation(
+                &format!("protocol:add:{}", if clash { "accepted-although-a-stored-model-has-its-namespace-or-name" } else { "rejected-although-no-stored-model-has-its-namespace-or-name" }),
+                &format!("after {:?} the models stored are {:?}, yet the addition is {}", trail, s.iter().map(|x| (ns_text(x.0), name_text(x.1))).collect::<Vec<_>>(), if want_ok { "accepted" } else { "rejected" }),
+                json!({"engine":"c18","requests":reqs,"expected":if clash { "errors" } else { "data" }}),
+              );
+            }
+            if !clash {
+              s.push((m.ns, m.name));
+            }
+          }
+        }
+        Op::Replace(k) => {
+          let m = MODELS[*k].1;
+          stored = match stored.take() {
+            Some(mut s) => match relation(&s, m.ns, m.name) {
+              (_, true) => None,
+              (true, false) => Some(s),
+              (false, false) => {
+                s.push((m.ns, m.name));
+                Some(s)
+              }
+            },
+            None => None,
+          };
+        }
+        Op::Remove(a, b) => {
+          stored = match stored.take() {
+            Some(s) => match relation(&s, *a, *b) {
+              (_, true) => None,
+              _ => Some(s.into_iter().filter(|x| !(x.0 == *a && x.1 == *b)).collect()),
+            },
+            None => None,
+          };
+        }
+        Op::Clear => stored = Some(vec![]),
+        Op::Deploy => {}
+      }
+    }
     let opname = match op {
       Op::Add(_) => "add",
       Op::Replace(_) => "replace",
